@@ -12,6 +12,7 @@ import (
 	"fmt"
 	"hash"
 	"io"
+	gofs "io/fs"
 	"os"
 	"path/filepath"
 	"runtime"
@@ -58,6 +59,8 @@ type c04Pair struct {
 	activity   int64
 	E          [2]*c04End
 	onPacket   func(n int) // called after the n-th packet has been accepted by the stream
+	ctx        context.Context // the stream's own context (independent of Send's and Receive's)
+	cancelCtx  func()
 }
 
 type c04End struct {
@@ -85,6 +88,7 @@ func c04NewPair(capSR, capRS int) *c04Pair {
 	sr := make(chan []byte, capSR)
 	rs := make(chan []byte, capRS)
 	p := &c04Pair{down: make(chan struct{}), reqReached: make(chan struct{})}
+	p.ctx, p.cancelCtx = context.WithCancel(context.Background())
 	p.E[0] = &c04End{pair: p, idx: 0, send: sr, recv: rs, broken: make(chan struct{}), breakAt: -1}
 	p.E[1] = &c04End{pair: p, idx: 1, send: rs, recv: sr, broken: make(chan struct{}), breakAt: -1}
 	return p
@@ -100,7 +104,7 @@ func (p *c04Pair) Log() []c04Pkt {
 
 var _ fsutil.Stream = &c04End{}
 
-func (e *c04End) Context() context.Context { return context.Background() }
+func (e *c04End) Context() context.Context { return e.pair.ctx }
 
 func (e *c04End) CloseSend() { e.closeOne() }
 func (e *c04End) closeOne()  { e.closeOnce.Do(func() { close(e.send) }) }
@@ -247,6 +251,68 @@ func (e *c04End) RecvMsg(m interface{}) error {
 	}
 }
 
+// ---------------------------------------------------------------- source with fault hooks
+
+// c04HookFS wraps any fsutil.FS (the in-memory MemFS or an on-disk tree through fsutil.NewFS)
+// with the fault hooks: called before each reported walk entry / before Open / before each Read.
+type c04HookFS struct {
+	inner    fsutil.FS
+	WalkHook func(idx int, p string) error
+	OpenHook func(p string) error
+	ReadHook func(p string, off int) error
+	ChunkLen int // max bytes per Read (0 = whatever the caller asks for)
+	walkIdx  int
+}
+
+func (h *c04HookFS) Walk(ctx context.Context, target string, fn gofs.WalkDirFunc) error {
+	return h.inner.Walk(ctx, target, func(p string, d gofs.DirEntry, err error) error {
+		if err == nil && h.WalkHook != nil {
+			idx := h.walkIdx
+			h.walkIdx++
+			if e := h.WalkHook(idx, p); e != nil {
+				return e
+			}
+		}
+		return fn(p, d, err)
+	})
+}
+
+func (h *c04HookFS) Open(p string) (io.ReadCloser, error) {
+	if h.OpenHook != nil {
+		if err := h.OpenHook(p); err != nil {
+			return nil, err
+		}
+	}
+	rc, err := h.inner.Open(p)
+	if err != nil {
+		return nil, err
+	}
+	return &c04HookReader{h: h, path: p, rc: rc}, nil
+}
+
+type c04HookReader struct {
+	h    *c04HookFS
+	path string
+	rc   io.ReadCloser
+	off  int
+}
+
+func (r *c04HookReader) Read(b []byte) (int, error) {
+	if r.h.ReadHook != nil {
+		if err := r.h.ReadHook(r.path, r.off); err != nil {
+			return 0, err
+		}
+	}
+	if r.h.ChunkLen > 0 && len(b) > r.h.ChunkLen {
+		b = b[:r.h.ChunkLen]
+	}
+	n, err := r.rc.Read(b)
+	r.off += n
+	return n, err
+}
+
+func (r *c04HookReader) Close() error { return r.rc.Close() }
+
 // ---------------------------------------------------------------- goroutine census
 
 var c04StackMu sync.Mutex
@@ -331,6 +397,8 @@ type c04Cfg struct {
 	// Hold: the fault is held back until quiescence: a fault hook blocks where it would fail, a
 	// cancellation / endpoint failure is postponed; at the first quiescence it is released.
 	Hold bool
+	// SrcDir != "": the source is that directory through fsutil.NewFS instead of the in-memory FS
+	SrcDir string
 	// Stall >= 0 (with Hold): the receiver-side callbacks of that entry block until the same moment
 	// and then return normally (a diff that is slower than the network).
 	Stall int
@@ -417,7 +485,15 @@ func c04Run(cfg c04Cfg) (res c04Res) {
 		pair.reqWant = cfg.Fanout
 		pair.E[0].gated = true
 	}
-	mem := &MemFS{Roots: cfg.View, ChunkLen: cfg.Chunk}
+	var srcfs fsutil.FS = &MemFS{Roots: cfg.View}
+	if cfg.SrcDir != "" {
+		// the real on-disk walker (fs.go) over a materialised copy of the view
+		var err error
+		if srcfs, err = fsutil.NewFS(cfg.SrcDir); err != nil {
+			panic(err)
+		}
+	}
+	mem := &c04HookFS{inner: srcfs, ChunkLen: cfg.Chunk}
 	chunk := cfg.Chunk
 	if chunk <= 0 {
 		chunk = 32 * 1024
@@ -448,9 +524,16 @@ func c04Run(cfg c04Cfg) (res c04Res) {
 			pair.E[cfg.FA&1].breakAt = int64(cfg.FB)
 		}
 	case c04FCancel:
+		// which context: 0 Send's, 1 Receive's, 2 the stream's own, 3 all three (one shared context)
+		cancelStream := func() { pair.cancelCtx(); pair.TearDown() }
 		cancel := cancelS
-		if cfg.FA&1 == 1 {
+		switch cfg.FA & 3 {
+		case 1:
 			cancel = cancelR
+		case 2:
+			cancel = cancelStream
+		case 3:
+			cancel = func() { cancelS(); cancelR(); cancelStream() }
 		}
 		if cfg.Hold {
 			fireHeld = func() {
@@ -783,7 +866,10 @@ func c04CountReq(log []c04Pkt) int {
 
 var c04Stats = map[string]int{}
 
-// kind 0401.  input: (view prior (fault a b [hold [stall]]) fanout cap chunk)
+// kind 0401.  input: (view prior (fault a b [hold [stall]]) fanout cap chunk [srckind])
+//
+//	srckind != 0: the view is materialised on disk and served by the real walker (fsutil.NewFS)
+//	fault 2: a = which context is cancelled: 0 Send's, 1 Receive's, 2 the stream's, 3 one shared by all
 //
 //	hold != 0: the fault is held back until no goroutine of either call can move (its hook blocks
 //	where it would fail; a cancellation / endpoint failure is postponed, b is ignored), then released;
@@ -827,6 +913,15 @@ func run0401(in Sx) (out Sx) {
 	if len(f.L) > 4 {
 		cfg.Stall = f.L[4].Int() - 1
 	}
+	if len(in.L) > 6 && in.L[6].IsTrue() {
+		cfg.SrcDir = filepath.Join(work, "src")
+		if err := os.Mkdir(cfg.SrcDir, 0755); err != nil {
+			panic(err)
+		}
+		if err := Materialize(view, cfg.SrcDir); err != nil {
+			panic("materialize source: " + err.Error())
+		}
+	}
 	res := c04Run(cfg)
 	var diffs []string
 	falseSucc := false
@@ -835,7 +930,7 @@ func run0401(in Sx) (out Sx) {
 		diffs = c04DestDiff(view, dest)
 		falseSucc = res.Recv == 0 && len(diffs) > 0
 		// a later fault-free transfer into whatever was left behind must converge
-		r2 := c04Run(c04Cfg{View: view, Dest: dest, Cap: 4, Chunk: cfg.Chunk, Stall: -1})
+		r2 := c04Run(c04Cfg{View: view, Dest: dest, Cap: 4, Chunk: cfg.Chunk, Stall: -1, SrcDir: cfg.SrcDir})
 		followup = 1
 		if r2.Send == 0 && r2.Recv == 0 && !r2.Hung && len(c04DestDiff(view, dest)) == 0 {
 			followup = 0
@@ -965,6 +1060,11 @@ func c04Case(view, prior []*MNode, kind, a, b, fanout, capacity, chunk int) Sx {
 	return L(ViewSx(view), ViewSx(prior), L(NI(kind), NI(a), NI(b)), NI(fanout), NI(capacity), NI(chunk))
 }
 
+// c04CaseK: the same with the source kind (0 in-memory FS, 1 on-disk tree through fsutil.NewFS).
+func c04CaseK(view, prior []*MNode, kind, a, b, fanout, capacity, chunk, srckind int) Sx {
+	return L(ViewSx(view), ViewSx(prior), L(NI(kind), NI(a), NI(b)), NI(fanout), NI(capacity), NI(chunk), NI(srckind))
+}
+
 func genC04(g *Gen) {
 	r := g.Rng.Fork() // seeds k and k+1 of the shared generator yield the same stream shifted by one draw
 	emit := func(in Sx, cls string) {
@@ -1006,7 +1106,7 @@ func genC04(g *Gen) {
 				b = 0
 			}
 		case c04FCancel:
-			a, b = r.Intn(2), r.Intn(4*ne+8)
+			a, b = r.Intn(4), r.Intn(4*ne+8) // which context: Send's / Receive's / the stream's / all
 			if r.Chance(15) {
 				b = 0
 			}
@@ -1017,7 +1117,53 @@ func genC04(g *Gen) {
 		case c04FOpen, c04FHash, c04FNotify:
 			a = r.Intn(ne)
 		}
-		emit(c04Case(view, prior, kind, a, b, 0, Pick(r, []int{0, 0, 1, 2, 8, 64}), chunk), c04FaultNames[kind])
+		srckind := 0
+		cls := c04FaultNames[kind]
+		if r.Chance(30) {
+			srckind = 1
+			cls += "/disk-source"
+		}
+		emit(c04CaseK(view, prior, kind, a, b, 0, Pick(r, []int{0, 0, 1, 2, 8, 64}), chunk, srckind), cls)
+	}
+	// (b2) re-sync into an up-to-date (or nearly up-to-date) destination: no or few requests are
+	// outstanding when the fault strikes; every fault kind, cancellation of each of the contexts
+	// at every packet position; source mostly on disk (the real walker)
+	for i, nr := 0, g.Vol(120, 3000); i < nr; i++ {
+		chunk := 1 + r.Intn(4)
+		view, _ := c04GenTree(r, 6, []int{0, 1, 2, 3, 5, 8})
+		if r.Chance(30) {
+			for k, extra := 0, 5+r.Intn(30); k < extra; k++ {
+				view = append(view, c04File(fmt.Sprintf("m%03d", k), r.Intn(4), r.U64(), c04Mt+int64(k)))
+			}
+		}
+		var prior []*MNode
+		for _, n := range view {
+			if r.Chance(8) {
+				continue // one of the few entries that is not up to date
+			}
+			prior = append(prior, c04Clone(n))
+		}
+		ne := c04CountEntries(view)
+		kind, a, b := c04FCancel, r.Intn(4), 1+r.Intn(ne+3)
+		switch r.Intn(10) {
+		case 0:
+			kind, a, b = c04FWalk, r.Intn(ne), 0
+		case 1:
+			kind, a, b = c04FBreak, r.Intn(2), r.Intn(2*ne+4)
+		case 2:
+			kind, a, b = c04FNone, 0, 0
+		case 3, 4, 5, 6:
+			a = 0 // Send's own context
+		}
+		srckind := 1
+		if r.Chance(25) {
+			srckind = 0
+		}
+		cls := "resync-" + c04FaultNames[kind]
+		if srckind == 1 {
+			cls += "/disk-source"
+		}
+		emit(c04CaseK(view, prior, kind, a, b, 0, Pick(r, []int{0, 1, 8, 64}), chunk, srckind), cls)
 	}
 	// (c) long listings: the entries that follow a synchronously handled entry pile up in the
 	// receiver's walker channel (128) and diff channel (128) while the diff is held on that entry
@@ -1056,7 +1202,7 @@ func genC04(g *Gen) {
 		case 0, 1:
 			kind = c04FHash
 		case 2:
-			kind, a, stall = c04FCancel, 1, pos+1 // receiver's context, diff stalled on the pivot
+			kind, a, stall = c04FCancel, 1+2*r.Intn(2), pos+1 // receiver's context (or all), diff stalled on the pivot
 		case 3:
 			kind, a, stall = c04FBreak, 1, pos+1
 		case 4:
